@@ -211,14 +211,18 @@ Proof.
     unfold Rp; cbn [pre mk]. unfold Rp in Hp. destruct (pre s) as [[|x l]|]; cbn [pre_w]; try exact I. exact Hp.
 Qed.
 
-Lemma grow_k_ge k n : (k <= grow_k k n)%Z.
+Lemma grow_k_ge k m n : (k <= grow_k k m n)%Z.
 Proof. unfold grow_k. lia. Qed.
-Lemma grow_k_mono k k' n : (k <= k')%Z -> (grow_k k n <= grow_k k' n)%Z.
+Lemma grow_k_mono k k' m m' n n' : (k <= k')%Z -> (m <= m')%Z -> (n <= n')%Z -> (grow_k k m n <= grow_k k' m' n')%Z.
 Proof. unfold grow_k. lia. Qed.
-Lemma rf_k_ge sc : forall k, (k <= rf_k k sc)%Z.
-Proof. induction sc as [|x sc IH]; intros k; cbn [rf_k]; [apply grow_k_ge|]. pose proof (grow_k_ge k (Z.of_nat min_read)). pose proof (IH (grow_k k (Z.of_nat min_read))). lia. Qed.
+Lemma rf_k_ge sc : forall k m, (k <= rf_k k m sc)%Z.
+Proof.
+  induction sc as [|x sc IH]; intros k m; cbn [rf_k]; [apply grow_k_ge|].
+  pose proof (grow_k_ge k m (Z.of_nat min_read)). pose proof (IH (grow_k k m (Z.of_nat min_read)) (m + zn (length (fst x)))%Z). lia.
+Qed.
 
-Lemma grow_cap b n b1 m : grow b n = (b1, m) -> (zn (cap b1) <= grow_k (zn (cap b)) (zn n))%Z.
+(* grow reallocates (to 2c+n) only when c < 2(m+n): the capacity stays below 5(m+n)+2 *)
+Lemma grow_cap b n b1 m : grow b n = (b1, m) -> (zn (cap b1) <= grow_k (zn (cap b)) (zn (blen b)) (zn n))%Z.
 Proof.
   unfold grow.
   set (b' := if Nat.eqb (blen b) 0 && negb (Nat.eqb (off b) 0) then reset b else b).
@@ -226,25 +230,58 @@ Proof.
   clearbody b'. unfold grow_k, zn, small_buffer_size. cbv zeta.
   destruct (Nat.leb n (cap b' - length (bytes b'))); [intros H; inversion H; subst; cbn [cap]; lia|].
   destruct (isnil b' && Nat.leb n 64); [intros H; inversion H; subst; cbn [cap]; lia|].
-  destruct (Nat.leb n (cap b' / 2 - blen b)); intros H; inversion H; subst; cbn [cap]; lia.
+  destruct (Nat.leb n (cap b' / 2 - blen b)) eqn:E; intros H; inversion H; subst; cbn [cap]; [lia|].
+  apply Nat.leb_gt in E.
+  pose proof (Nat.div_mod (cap b') 2 ltac:(lia)) as Hd. pose proof (Nat.mod_upper_bound (cap b') 2 ltac:(lia)) as Hm.
+  lia.
 Qed.
-Lemma grow_for_write_cap b n b1 m : grow_for_write b n = (b1, m) -> (zn (cap b1) <= grow_k (zn (cap b)) (zn n))%Z.
+Lemma grow_for_write_cap b n b1 m : grow_for_write b n = (b1, m) -> (zn (cap b1) <= grow_k (zn (cap b)) (zn (blen b)) (zn n))%Z.
 Proof.
   unfold grow_for_write. destruct (Nat.leb n (cap b - length (bytes b))).
   - intros H; inversion H; subst; cbn [cap]. apply grow_k_ge.
   - apply grow_cap.
 Qed.
-Lemma read_from_cap sc : forall b n k, (zn (cap b) <= k)%Z -> (zn (cap (fst (read_from b sc n))) <= rf_k k sc)%Z.
+
+(* one iteration of ReadFrom's loop *)
+Lemma read_iter b b1 i chunk : Inv b -> grow b min_read = (b1, i) -> length chunk <= min_read ->
+  let b2 := set_bytes b1 (firstn i (bytes b1)) in
+  let b3 := set_bytes b2 (bytes b2 ++ firstn (Nat.min (length chunk) (cap b2 - i)) chunk) in
+  Inv b2 /\ live b2 = live b /\ Inv b3 /\ live b3 = live b ++ chunk.
 Proof.
-  induction sc as [|[chunk e] sc IH]; intros b n k Hk; cbn [read_from rf_k].
+  intros HI Eg Hck.
+  destruct (grow_spec _ _ _ _ HI Eg) as ((Ho1 & Hc1 & Hn1) & Hlen & Hom & Hk & Hlr & Hoff).
+  assert (Hfl : length (firstn i (bytes b1)) = i) by (rewrite firstn_length; lia).
+  cbv zeta.
+  assert (Hmin : Nat.min (length chunk) (cap (set_bytes b1 (firstn i (bytes b1))) - i) = length chunk).
+  { unfold set_bytes; cbn [cap]. apply Nat.min_l. lia. }
+  rewrite Hmin, firstn_all.
+  split; [|split; [|split]].
+  - unfold Inv, set_bytes; cbn [bytes off cap isnil]. rewrite Hfl. split; [lia|split; [lia|]].
+    intros H. destruct (Hn1 H) as [E1 E2]. rewrite E1, firstn_nil. auto.
+  - unfold live, set_bytes; cbn [bytes off]. exact Hk.
+  - unfold Inv, set_bytes; cbn [bytes off cap isnil]. rewrite app_length, Hfl. split; [lia|split; [lia|]].
+    intros H. destruct (Hn1 H) as [E1 E2]. rewrite E1 in Hlen. cbn [length] in Hlen. unfold min_read in Hlen. lia.
+  - unfold live, set_bytes; cbn [bytes off]. rewrite skipn_app_le by lia. rewrite Hk. reflexivity.
+Qed.
+
+Lemma read_from_cap sc : forall b n k m, Inv b -> forallb chunk_ok sc = true -> (zn (cap b) <= k)%Z -> (zn (blen b) <= m)%Z ->
+  (zn (cap (fst (read_from b sc n))) <= rf_k k m sc)%Z.
+Proof.
+  induction sc as [|[chunk e] sc IH]; intros b n k m HI Hok Hk Hm; cbn [read_from rf_k].
   - destruct (grow b min_read) as [b1 i] eqn:Eg. cbn [fst]. unfold set_bytes; cbn [cap].
-    pose proof (grow_cap _ _ _ _ Eg) as H. pose proof (grow_k_mono _ _ (zn min_read) Hk). unfold zn in *. lia.
-  - destruct (grow b min_read) as [b1 i] eqn:Eg.
-    pose proof (grow_cap _ _ _ _ Eg) as H. pose proof (grow_k_mono _ _ (zn min_read) Hk) as H2.
-    assert (H1 : (zn (cap b1) <= grow_k k (Z.of_nat min_read))%Z) by (unfold zn in *; lia).
-    pose proof (rf_k_ge sc (grow_k k (Z.of_nat min_read))) as H3.
+    pose proof (grow_cap _ _ _ _ Eg) as H.
+    pose proof (grow_k_mono _ _ _ _ (zn min_read) (zn min_read) Hk Hm ltac:(lia)). unfold zn in *. lia.
+  - cbn [forallb] in Hok. apply andb_prop in Hok. destruct Hok as [Hck Hok].
+    unfold chunk_ok in Hck. cbn [fst] in Hck. apply Nat.leb_le in Hck.
+    destruct (grow b min_read) as [b1 i] eqn:Eg.
+    pose proof (grow_cap _ _ _ _ Eg) as H.
+    pose proof (grow_k_mono _ _ _ _ (zn min_read) (zn min_read) Hk Hm ltac:(lia)) as H2.
+    assert (H1 : (zn (cap b1) <= grow_k k m (Z.of_nat min_read))%Z) by (unfold zn in *; lia).
+    pose proof (rf_k_ge sc (grow_k k m (Z.of_nat min_read)) (m + zn (length chunk))%Z) as H3. cbn [fst].
+    destruct (read_iter b b1 i chunk HI Eg Hck) as (HI2 & Hl2 & HI3 & Hl3).
     destruct (e =? -1)%Z; [cbn [fst]; unfold set_bytes; cbn [cap]; lia|].
     destruct (e =? 1)%Z; [cbn [fst]; unfold set_bytes; cbn [cap]; lia|].
     destruct (e =? 0)%Z; [|cbn [fst]; unfold set_bytes; cbn [cap]; lia].
-    apply IH. unfold set_bytes; cbn [cap]. exact H1.
+    apply IH; [exact HI3|exact Hok|unfold set_bytes; cbn [cap]; exact H1|].
+    rewrite <- live_len, Hl3, app_length, live_len. unfold zn in *. lia.
 Qed.
